@@ -111,6 +111,18 @@ def edit_pair(rng):
         target[k] = e
     for _ in range(rng.randint(0, 2)):
         target.setdefault(rng.choice(KEYS), ptree(rng, 2))
+    if rng.random() < 0.12:
+        # several lists holding the same entries in different orders, some swapped between base and target:
+        # every changed list is decided on its own
+        ents = rng.sample(["p", "q", "r", "s", {"n": 1}, {"n": 2}], rng.randint(2, 4))
+        for name in rng.sample(["readOrder", "writeOrder", "thirdOrder", "zOrder"], rng.randint(2, 4)):
+            a = list(ents)
+            rng.shuffle(a)
+            b = list(ents)
+            rng.shuffle(b)
+            base = dict(base)
+            base[name] = gen.deep(a)
+            target[name] = gen.deep(b if rng.random() < 0.7 else a)
     if rng.random() < 0.08:
         target = gen.deep(base)
     return base, target
